@@ -98,8 +98,25 @@ def guarded(f):
             warnings.simplefilter("ignore")
             with np.errstate(all="ignore"):
                 return canon(f())
+    except OutOfDomain as e:
+        return ("err", "Domain", str(e))
     except BaseException as e:  # noqa
         return ("err", err_kind(e), f"{type(e).__name__}: {str(e)[:80]}")
+
+
+class OutOfDomain(Exception):
+    """a nested division whose divisor contains zero: the statement allows anything there"""
+
+
+def holds0(v):
+    I = _I()
+    if isinstance(v, I):
+        return bool(np.any((np.asarray(v.lo) <= 0) & (np.asarray(v.hi) >= 0)))
+    if hasattr(v, "left") and hasattr(v, "right"):
+        return bool(np.min(v.left) <= 0 <= np.max(v.right))
+    if isinstance(v, np.ndarray):
+        return bool(np.any(v == 0))
+    return False
 
 
 def ieval(t, xs):
@@ -111,7 +128,10 @@ def ieval(t, xs):
         return float(t[1])
     if k == "g":
         return -ieval(t[1], xs)
-    return PYOPS[t[1]](ieval(t[2], xs), ieval(t[3], xs))
+    a, b = ieval(t[2], xs), ieval(t[3], xs)
+    if t[1] == "div" and holds0(b):
+        raise OutOfDomain("divisor contains zero")
+    return PYOPS[t[1]](a, b)
 
 
 def peval(t, xs):
@@ -120,11 +140,17 @@ def peval(t, xs):
     if k == "v":
         return xs[t[1]]
     if k == "b":
-        return getattr(peval(t[3], xs), t[1])(peval(t[4], xs), dependency=t[2])
+        a, b = peval(t[3], xs), peval(t[4], xs)
+        if t[1] == "div" and holds0(b):
+            raise OutOfDomain("divisor contains zero")
+        return getattr(a, t[1])(b, dependency=t[2])
     if k == "r":
         return PYOPS[t[1]](peval(t[2], xs), float(t[3]))
     if k == "l":
-        return PYOPS[t[1]](float(t[2]), peval(t[3], xs))
+        a = peval(t[3], xs)
+        if t[1] == "div" and holds0(a):
+            raise OutOfDomain("divisor contains zero")
+        return PYOPS[t[1]](float(t[2]), a)
     if k == "g":
         return -peval(t[1], xs)
     if k == "e":
@@ -547,6 +573,197 @@ def in_domain(spec, inp):
 
 
 # =====================================================================================================
+# the dual statement with an exactly known sub-result: a point (precise) sub-box has the exact arithmetic value,
+# which has to lie inside the result for the box.  Independent of the model (Fractions only).
+def fexact(op, a, b):
+    if op == "add":
+        return a + b
+    if op == "sub":
+        return a - b
+    if op == "mul":
+        return a * b
+    if b == 0:
+        raise ZeroDivisionError
+    return a / b
+
+
+def tree_point(t, xs):
+    """exact value of the expression at a point"""
+    k = t[0]
+    if k == "v":
+        return xs[t[1]]
+    if k == "n":
+        return F(t[1])
+    if k == "g":
+        return -tree_point(t[1], xs)
+    return fexact(t[1], tree_point(t[2], xs), tree_point(t[3], xs))
+
+
+def pts_of(v, rng):
+    """a few points of the interval [lo, hi] (exact)"""
+    lo, hi = F(v[0]), F(v[1])
+    return [lo, hi, (lo + hi) / 2, lo + (hi - lo) * F(rng.choice([1, 3, 5, 7]), 8)]
+
+
+def inside(val, lo, hi, exact, scale, depth):
+    if exact:
+        return F(lo) <= val <= F(hi)
+    return pbx.tol_le(F(lo), val, scale, depth) and pbx.tol_le(val, F(hi), scale, depth)
+
+
+def selections_of(l, r, rng, k=2):
+    """precise distributions inside the p-box (l, r): sorted selections of one value per step"""
+    L, R = [F(v) for v in l], [F(v) for v in r]
+    out = [L, R]
+    for _ in range(k):
+        out.append(sorted(rng.choice([a, b, (a + b) / 2]) for a, b in zip(L, R)))
+    return out
+
+
+def pairing(dep, n, rng):
+    if dep == "p":
+        return [list(range(n))]
+    if dep == "o":
+        return [list(range(n - 1, -1, -1))]
+    perm = list(range(n))
+    rng.shuffle(perm)
+    return [list(range(n)), list(range(n - 1, -1, -1)), perm]
+
+
+def sub_result_check(spec, inp, res, exact, depth, rng):
+    """None, or a witness that an exactly computed sub-result lies outside the real result"""
+    f = spec["f"]
+    scale = max([abs(F(v)) for v in res[1] + res[2]] + [F(1)])
+    if f == "ivl-bin":
+        x, y, op = inp["x"], inp["y"], spec["op"]
+        def elems(v):
+            if isinstance(v, (int, float)):
+                return None
+            if isinstance(v[0], (list, tuple)):
+                return [[a, b] for a, b in zip(v[0], v[1])]
+            return [v]
+        ex, ey = elems(x), elems(y)
+        n = max(len(ex or [0]), len(ey or [0]))
+        if len(res[1]) != n:
+            return {"why": "shape", "len": len(res[1])}
+        for i in range(n):
+            px = [F(x)] if ex is None else pts_of(ex[i if len(ex) > 1 else 0], rng)
+            py = [F(y)] if ey is None else pts_of(ey[i if len(ey) > 1 else 0], rng)
+            for a in px:
+                for b in py:
+                    if op == "div" and b == 0:
+                        continue
+                    v = fexact(op, a, b)
+                    if not inside(v, res[1][i], res[2][i], exact, scale, depth):
+                        return {"why": "point", "element": i, "x": float(a), "y": float(b), "value": float(v),
+                                "result": [res[1][i], res[2][i]]}
+        return None
+    if f == "ivl-un":
+        fn = spec["fn"]
+        g = {"neg": lambda a: -a, "abs": lambda a: abs(a), "pow2": lambda a: a * a, "pow3": lambda a: a * a * a,
+             "recip": lambda a: 1 / a}.get(fn)
+        if g is None:
+            return None
+        for a in pts_of(inp["x"], rng):
+            if fn == "recip" and a == 0:
+                continue
+            v = g(a)
+            if not inside(v, res[1][0], res[2][0], exact, scale, depth):
+                return {"why": "point", "x": float(a), "value": float(v), "result": [res[1][0], res[2][0]]}
+        return None
+    if f in ("itree", "b2b"):
+        if f == "b2b" and spec["strategy"] != "direct" and spec.get("repeated"):
+            return None                      # vertex / tiled evaluation of a non-multilinear response may miss interior values
+        box = inp["box"]
+        cands = [pts_of(b, rng) for b in box]
+        for _ in range(6):
+            xs = [rng.choice(c) for c in cands]
+            try:
+                v = tree_point(spec["tree"], xs)
+            except ZeroDivisionError:
+                continue
+            if not inside(v, res[1][0], res[2][0], exact, scale, depth):
+                return {"why": "point", "x": [float(a) for a in xs], "value": float(v), "result": [res[1][0], res[2][0]]}
+        return None
+    if f in ("pb-raw", "pb-bin"):
+        dep = spec.get("dep") or {"frechet": "f", "perfect": "p", "opposite": "o", "independent": "i", "naive": None}[spec["rule"]]
+        if dep is None:
+            return None
+        x = inp["x"]
+        y = as_box(spec.get("ykind", "pbox"), inp["y"]) if f == "pb-bin" else inp["y"]
+        n = len(x[0])
+        op = spec["op"]
+        if f == "pb-raw" and op == "mul" and dep == "f" and not (min(x[0]) >= 0 and min(y[0]) >= 0):
+            return None                      # the raw Frechet rule is only used on non-negative factors
+        sxs, sys_ = selections_of(*x, rng, 1), selections_of(*y, rng, 1)
+        if dep == "i":
+            if n > 8:
+                return None
+            for sx in sxs:
+                for sy in sys_:
+                    if op == "div" and any(v == 0 for v in sy):
+                        continue
+                    z = sorted(fexact(op, a, b) for a in sx for b in sy)
+                    if len(res[1]) == n * n:
+                        idx = list(range(n * n))
+                    else:
+                        idx = [k * (n + 1) for k in range(n)] if n > 1 else [0]
+                    for k, j in enumerate(idx):
+                        if not inside(z[j], res[1][k], res[2][k], exact, scale, depth):
+                            return {"why": "precise-sub-box", "dep": dep, "step": k, "value": float(z[j]), "result": [res[1][k], res[2][k]]}
+            return None
+        for sx in sxs:
+            for sy in sys_:
+                if op == "div" and any(v == 0 for v in sy):
+                    continue
+                for sg in pairing(dep, n, rng):
+                    z = sorted(fexact(op, sx[m], sy[sg[m]]) for m in range(n))
+                    for k in range(n):
+                        if not inside(z[k], res[1][k], res[2][k], exact, scale, depth):
+                            return {"why": "precise-sub-box", "dep": dep, "step": k, "value": float(z[k]),
+                                    "result": [res[1][k], res[2][k]]}
+        return None
+    if f in ("pb-num", "pb-neg"):
+        x = inp["x"]
+        n = len(x[0])
+        for sx in selections_of(*x, rng, 1):
+            if f == "pb-neg":
+                z = sorted(-a for a in sx)
+            else:
+                c, op = F(spec["c"]), spec["op"]
+                if op == "div" and ((spec["side"] == "R" and c == 0) or (spec["side"] == "L" and any(a == 0 for a in sx))):
+                    continue
+                z = sorted((fexact(op, a, c) if spec["side"] == "R" else fexact(op, c, a)) for a in sx)
+            for k in range(n):
+                if not inside(z[k], res[1][k], res[2][k], exact, scale, depth):
+                    return {"why": "precise-sub-box", "step": k, "value": float(z[k]), "result": [res[1][k], res[2][k]]}
+        return None
+    if f == "pb-agg":
+        ops = [as_box(k, v) for k, v in zip(spec["kinds"], inp["ops"])]
+        if len(res[1]) != len(ops[0][0]):
+            ops = [([min(o[0])], [max(o[1])]) for o in ops]      # all-Interval envelope returns an Interval
+        for i, o in enumerate(ops):
+            a = ("ok", list(o[0]), list(o[1]))
+            w = contained(a, res, True) if spec["agg"] == "env" else contained(res, a, True)
+            if w is not None:
+                return {"why": "operand-" + ("not-inside-envelope" if spec["agg"] == "env" else "does-not-contain-imposition"),
+                        "operand": i, **w}
+        return None
+    if f == "cut":
+        pv = [F(p) for p in pvals()]
+        a = F(spec["alpha"])
+        d = [abs(p - a) for p in pv]
+        m = min(d)
+        ok_idx = [i for i, v in enumerate(d) if v - m <= F(1, 10 ** 15)]
+        x = inp["x"]
+        if not any(res[1][0] == x[0][i] and res[2][0] == x[1][i] for i in ok_idx):
+            return {"why": "cut-index", "expected_index": ok_idx[0], "expected": [x[0][ok_idx[0]], x[1][ok_idx[0]]],
+                    "result": [res[1][0], res[2][0]]}
+        return None
+    return None
+
+
+# =====================================================================================================
 # generators of nested operands
 INC_I = [0, 0, 1, 1, 2, 4, 9]
 
@@ -611,7 +828,7 @@ def widen_box(rng, l, r, integer=True, keep_sign=False):
     integer = {True: "int", False: "float"}.get(integer, integer)
     inc = {"int": (lambda: rng.choice(INC_I)), "dyadic": (lambda: rng.choice([0, 0, 0.125, 0.5, 1, 2.5])),
            "float": (lambda: rng.choice([0.0, 0.0, rng.uniform(0, 0.5), rng.uniform(0, 4)]))}[integer]
-    mode = rng.choice(["rand", "rand", "shift", "left", "right", "support", "tail", "big"])
+    mode = rng.choice(["rand", "rand", "shift", "left", "right", "support", "tail", "big", "first"])
     l2, r2 = list(l), list(r)
     if mode == "rand":
         l2 = [a - inc() for a in l]
@@ -625,6 +842,13 @@ def widen_box(rng, l, r, integer=True, keep_sign=False):
         r2 = [a + inc() for a in r]
     elif mode == "support":
         l2, r2 = [min(l)] * n, [max(r)] * n
+    elif mode == "first":
+        # the smallest widening: only the first left step and / or the last right step move (possibly across zero)
+        c1 = rng.choice([1, 2, 30]) if integer != "float" else rng.uniform(0.1, 30)
+        if rng.random() < 0.6:
+            l2[0] = l2[0] - c1
+        else:
+            r2[-1] = r2[-1] + c1
     elif mode == "tail":
         k = rng.randrange(1, n + 1)
         c1, c2 = inc(), inc()
@@ -1125,6 +1349,8 @@ def check_case(ctx, c, models, verbose=False):
         if mo is None:
             continue
         dom = in_domain(spec, inp)
+        if im[0] == "err" and im[1] == "Domain":
+            continue                # nested divisor containing zero: not compared
         nested_div_t = spec["f"] in ("itree", "ptree", "slice", "b2b") and tree_has(spec["tree"], ("div",))
         if (not dom or nested_div_t) and im[0] == "err" and mo[0] == "err":
             ctx.tie_ok()            # both reject; kinds may differ through Python's operator fall-back (c / P -> TypeError)
@@ -1149,7 +1375,7 @@ def check_case(ctx, c, models, verbose=False):
     nested_div = spec["f"] in ("itree", "ptree", "slice", "b2b") and tree_has(spec["tree"], ("div",))
     for i, (inp, im, dom) in enumerate(zip(runs, impls, doms)):
         if im[0] == "err":
-            if not dom:
+            if not dom or im[1] == "Domain":
                 ctx.bump("outside-domain")
                 return
             if nested_div:
@@ -1168,6 +1394,16 @@ def check_case(ctx, c, models, verbose=False):
         if not dom:
             ctx.bump("outside-domain")
             return
+    import random, zlib
+    prng = random.Random(zlib.crc32(json.dumps(spec, sort_keys=True, default=str).encode()))
+    for i, (inp, im) in enumerate(zip(runs, impls)):
+        w = sub_result_check(spec, inp, im, exact, dep, prng)
+        if w is not None:
+            ctx.fail(features(spec, {"check": "sub-result", "symptom": "exact-sub-result-outside:" + w["why"], "run": i}),
+                     {**case_json, "witness": w, "impl": [pbx.js(x[:3]) for x in impls]},
+                     f"{stream}: run {i}: the exactly computed result of a point / precise sub-box lies outside the result for the box ({json.dumps(w)[:200]})")
+            return
+    ctx.bump("sub-results-checked")
     for i in range(len(runs) - 1):
         w = contained(impls[i], impls[i + 1], exact, dep)
         if w is not None:
